@@ -459,7 +459,7 @@ func run(seed int64, n int, out string, args []string) {
 	}
 	for _, j := range plan {
 		if !v.ok(j) {
-			o.Count("skipped.nonterminating_input")
+			o.Count("skipped.not_vetted_or_nonterminating")
 			continue
 		}
 		working("")
